@@ -3,8 +3,10 @@
 Claims
 * `history`: a list of some class (every concrete subclass of TimedList of every game) is built (from a frame with
   arbitrary row labels, from items, from a dict, as `empty(n)`), then 1-12 list operations are applied
-  (slice, after/before/between with inclusive flags, the head/tail variants for holds, sorted, append of an item
-  or of a list, with/without sort).  After **every** step all observables are read from the real object
+  (slice, after/before/between with inclusive flags, the head/tail variants for holds, sorted, append of an item,
+  of a fresh list or of a live list, with/without sort) over a POOL of live lists: every operation takes any live
+  list as its receiver, its result joins the pool, the receiver stays; every live list is read again after every
+  step and must be what it was (no operation of the property is assigning).  After **every** step all observables are read from the real object
   (len, tl[i] for several i incl. negative / out of range, iteration, first/last offset) and
   (C) compared with Model/TList.lean applied to the implementation's previous state (labels included), and the
       whole run of the model from the initial table is compared with the final state;
@@ -29,7 +31,8 @@ RULE = ("list class drawn from all concrete TimedList subclasses; 0-10 (sometime
         "pool (ties, negative, fractional) or, in 45 % of the cases, of chart magnitude (10 s - 20 min in ms, both signs) with "
         "neighbours 1 ms / 0.5 ms / 1/1024 ms / 1 ulp apart; bounds equal to a row's offset (or tail) or 1 ms / 0.5 ms / 1 ulp "
         "next to it (equality at the inclusive flags, nothing near the bound may be taken for it); "
-        "arbitrary row labels (permuted, gapped, duplicated); 1-12 operations; every observable after every step; "
+        "arbitrary row labels (permuted, gapped, duplicated); 1-12 operations, each on the latest result or on any earlier live "
+        "list, every live list re-observed after every step; "
         "non-trivial = at least 2 rows and (a tie or bound equal to an offset, or labels != positions when indexed)")
 ASSUMPTIONS = [
     "values are dyadic rationals of small magnitude: every double operation the code performs is exact",
@@ -340,6 +343,13 @@ def _gen(rng, tier, name, inf):
     init = gen_init(rng, inf, tier)
     n = len(init.get("rows", init.get("kws", []))) if init["how"] in ("frame", "items") else 4
     ops = [gen_op(rng, inf, n) for _ in range(rng.choice([1, 2, 3, 4, 6, 8, 12]))]
+    for k, o in enumerate(ops):
+        # the receiver: the latest result (a chain) or any list that is still live
+        o["on"] = None if (k == 0 or rng.random() < 0.5) else rng.randrange(0, k + 1)
+        if o["k"] == "append" and rng.random() < 0.3:
+            o.pop("kws", None); o.pop("rows", None)
+            o["how"] = "member"
+            o["m"] = rng.randrange(0, k + 1)
     probes = sorted({0, -1, n, -n, -n - 1, rng.randint(-n - 1, n + 1), rng.randint(0, n + 1)})
     return dict(claim="history", cls=name, init=init, ops=ops, probes=probes)
 
@@ -390,6 +400,14 @@ def corpus():
                   ops=[dict(k="after", x=F1(0), incl=True, dflt=False), dict(k="slice", a=None, b=None, c=0)], probes=[0, -1]))
     c.append(dict(claim="history", cls="HoldList", init=dict(how="frame", labels=[], rows=[]),
                   ops=[dict(k="sorted", rev=False, dflt=False)], probes=[0]))
+    # the receiver stays what it was: sort list 0, then look at list 0 again; reverse-sort list 0, list 1 must not follow
+    c.append(dict(claim="history", cls="HoldList", init=dict(how="frame", labels=[0, 1, 2, 3], rows=rows),
+                  ops=[dict(k="sorted", rev=False, dflt=True), dict(k="sorted", rev=True, dflt=False, on=0),
+                       dict(k="slice", a=1, b=3, c=None, on=0), dict(k="append", how="member", m=1, sort=False, on=0)],
+                  probes=[0, 1, -1]))
+    c.append(dict(claim="history", cls="OsuSvList", init=dict(how="dict", cols=dict(offset=[F1(3), F1(1), F1(2)])),
+                  ops=[dict(k="append", how="member", m=0, sort=True), dict(k="after", x=F1(2), incl=True, dflt=False, on=0)],
+                  probes=[0, -1]))
     # chart magnitude: a row 1 ms / 0.5 ms / 1 ulp off the bound is not on the bound (tolerant comparisons lose this)
     trow = lambda o: dict(offset=F1(o))
     big = [trow(180000), trow(180001), trow(Fr(360001, 2)), trow(ulp_up(Fr(180000))), trow(179999)]
@@ -511,10 +529,17 @@ def _op_ok(inf, o):
     if k == "sorted":
         return isinstance(o.get("rev"), bool)
     if k == "append":
+        if o.get("how") == "member":
+            return isinstance(o.get("m"), int) and not isinstance(o["m"], bool) and o["m"] >= 0 and isinstance(o.get("sort"), bool)
         if o.get("how") == "item":
             return isinstance(o.get("kws"), list) and len(o["kws"]) == 1 and _kw_ok(inf, o["kws"][0])
         return o.get("how") == "list" and isinstance(o.get("rows"), list) and all(_row_ok(inf, r) for r in o["rows"])
     return False
+
+
+def _on_ok(o):
+    on = o.get("on")
+    return on is None or (isinstance(on, int) and not isinstance(on, bool) and on >= 0)
 
 
 def valid(case):
@@ -528,7 +553,7 @@ def valid(case):
             return True
         if case["init"]["how"] == "nil":
             return False
-        return (isinstance(case["ops"], list) and all(isinstance(o, dict) and _op_ok(inf, o) for o in case["ops"])
+        return (isinstance(case["ops"], list) and all(isinstance(o, dict) and _op_ok(inf, o) and _on_ok(o) for o in case["ops"])
                 and isinstance(case["probes"], list) and all(isinstance(p, int) and not isinstance(p, bool) for p in case["probes"]))
     except Exception:
         return False
@@ -831,7 +856,6 @@ def run_history(case, drv):
     elif not tbl_eq(tbl, m0["ok"]["rows"]):
         tags.append("labels-differ")
     init_tbl = m0["ok"]["rows"] if "ok" in m0 else tbl
-    wire_ops = []
     synced = True            # the whole-run comparison is meaningful while no sort chose another tie order
     probes = case["probes"]
 
@@ -888,18 +912,51 @@ def run_history(case, drv):
             nontrivial = True
 
     check_obs(cur, tbl, "init")
-    # ---- operations
+    # ---- operations over a POOL of live lists: every operation takes a receiver from the pool, its result joins the
+    # pool, the receiver stays; after every step every live list is read again and must be what it was
+    pool = [dict(tl=cur, tbl=tbl)]
+    pool_ops = []
+
+    def check_live(step, skip=None):
+        for k, mem in enumerate(pool):
+            if k == skip:
+                continue
+            try:
+                _, now = state(mem["tl"])
+            except Exception as e:
+                fail("ok", step=step, what=f"live list {k} cannot be read any more", impl=err_class(e))
+                continue
+            if not tbl_eq(now, mem["tbl"], labels=False):
+                # a plain sequence does not change when something is derived from it
+                fail("ok", step=step, what=f"live list {k} changed (rows were {len(mem['tbl'])}, order/content differ)",
+                     was=plain(mem["tbl"])[:6], now=plain(now)[:6])
+            else:
+                check_obs(mem["tl"], mem["tbl"], f"{step}/live{k}")
+
     for si, o in enumerate(case["ops"]):
+        ri = (len(pool) - 1) if o.get("on") is None else o["on"] % len(pool)
+        rec = pool[ri]
+        cur, tbl = rec["tl"], rec["tbl"]
+        if ri != len(pool) - 1:
+            tags.append("earlier-receiver")
         try:
-            wo = wire_op(inf, o)
+            if o["k"] == "append" and o.get("how") == "member":
+                src = pool[o["m"] % len(pool)]
+                wo = dict(k="append", ys=[r for _, r in src["tbl"]], sort=o["sort"])
+                tags.append("append-live-list")
+            else:
+                src = None
+                wo = wire_op(inf, o)
         except Exception as e:
             # the appended value itself could not be built (constructor failure): not this claim's business
             tags.append("append-value-raises")
             break
-        wire_ops.append(wo)
         tags.append(o["k"])
         try:
-            nxt = apply_op(inf, cur, o)
+            if src is not None:
+                nxt = cur.append(src["tl"], sort=True) if o["sort"] else cur.append(src["tl"])
+            else:
+                nxt = apply_op(inf, cur, o)
             _, ntbl = state(nxt)
             impl = {"ok": ntbl}
         except Exception as e:
@@ -930,13 +987,17 @@ def run_history(case, drv):
             nontrivial = True
         if nxt is None:
             tags.append("op-raises")
+            check_live(si)          # a refused operation must not have touched anything either
             break
-        cur, tbl = nxt, impl["ok"]
-        check_obs(cur, tbl, si)
+        pool_ops.append([ri, wo])
+        pool.append(dict(tl=nxt, tbl=impl["ok"]))
+        check_obs(nxt, impl["ok"], si)
+        check_live(si, skip=len(pool) - 1)
     else:
-        if synced and wire_ops:
-            mr = drv.call("c16.run", rows=init_tbl, ops=wire_ops)
-            if "ok" not in mr or not tbl_eq(tbl, mr["ok"], labels=False):
-                fail("agree", step="run", impl=tbl, model=mr)
+        if synced and pool_ops:
+            mr = drv.call("c16.run_pool", rows=init_tbl, ops=pool_ops)
+            if "ok" not in mr or len(mr["ok"]) != len(pool) or \
+                    not all(tbl_eq(mem["tbl"], mt, labels=False) for mem, mt in zip(pool, mr["ok"])):
+                fail("agree", step="run_pool", impl=[mem["tbl"] for mem in pool][-2:], model=mr if "err" in mr else mr["ok"][-2:])
     return dict(claim="history", ok=ok, agree=agree, dom=True, kf=None, tags=sorted(set(tags)), nontrivial=nontrivial,
                 detail=detail)
